@@ -46,12 +46,18 @@ FALSY_LINES = ["n=0 s= typed", "n=0 s=x typed", "n=7 s= typed", "k= v=0",
                "k=ab v=0", "k= v=3", "n=00 s= typed"]
 
 
-def gen_lines(seed, vol, with_seq, falsy=False):
+def gen_lines(seed, vol, with_seq, falsy=False, distinct=False,
+              badutf8=False):
     """ deterministic file content with exactly `vol` results.  Line kinds:
     'N W match' (simple A), 'N W beta match' (simple A and B), filler, if
     with_seq sections 'N begin' / 'N body W' / 'N end', and if falsy lines
     whose captured values are falsy: int 0 through an int-typed field, the
-    empty string from a group that matched nothing (defs F and K). """
+    empty string from a group that matched nothing (defs F and K); if
+    distinct every 'match' line captures its own numbered token (so the
+    worker stores as many distinct values as it has results: block and batch
+    boundaries inside the results store are crossed); if badutf8 some result
+    lines carry a byte that is not valid UTF-8 (written through
+    surrogateescape), for searchers created with a lenient decode_errors. """
     import random
     rng = random.Random(seed)
     out = []
@@ -60,6 +66,10 @@ def gen_lines(seed, vol, with_seq, falsy=False):
         k = rng.random()
         num = rng.randrange(50)
         w = WORDS[rng.randrange(len(WORDS))]
+        if distinct:
+            w = f"tok{seed % 997}_{len(out)}"
+        if badutf8 and (n == 0 or rng.random() < 0.1):
+            w = "caf\udce9" + w[:3]
         if falsy and (n == 0 or rng.random() < 0.25):
             out.append(FALSY_LINES[rng.randrange(len(FALSY_LINES))])
             n += 1
@@ -95,10 +105,13 @@ def write_files(d, recipe):
     paths = []
     for i, f in enumerate(recipe['files']):
         p = os.path.join(d, f"f{i:03d}.txt")
-        with open(p, 'w', encoding='utf-8') as fh:
+        with open(p, 'w', encoding='utf-8',
+                  errors='surrogateescape') as fh:
             if f['vol'] != 'E':
                 lines = gen_lines(f['seed'], f['vol'], f['seq'],
-                                  f.get('falsy', False))
+                                  f.get('falsy', False),
+                                  f.get('distinct', False),
+                                  f.get('badutf8', False))
                 fh.write("\n".join(lines) + "\n")
         paths.append(p)
     return paths
@@ -156,50 +169,75 @@ def digest(lst):
     return hashlib.sha256(json.dumps(lst).encode()).hexdigest()[:20]
 
 
+def describe_exc(exc):
+    import traceback
+    return {'class': type(exc).__name__, 'text': str(exc)[:300],
+            'trace': traceback.format_exc()[-1200:]}
+
+
 def child_main(recipe_path, out_path):
-    """ runs in its own process group: one parallel run + one sequential run
-    per path; writes per-path digests and the first difference """
+    """ runs in its own process group: one sequential run per path, then
+    one parallel run over all paths; writes per-path digests, the first
+    difference and any exception either side raised """
     vlib.impl_path_setup()
     from searchkit import FileSearcher
     with open(recipe_path, encoding='utf-8') as f:
         recipe = json.load(f)
     d = tempfile.mkdtemp(prefix='c02f_', dir=os.path.dirname(out_path))
-    out = {'paths': [], 'error': None}
+    out = {'paths': [], 'error': None, 'par_error': None}
+    kw = {}
+    if recipe.get('decode'):
+        kw['decode_errors'] = recipe['decode']
     try:
         paths = write_files(d, recipe)
         t0 = time.time()
-        s = FileSearcher(max_parallel_tasks=recipe['m'])
-        for sd in make_defs():
-            for p in paths:
-                s.add(sd, p)
-        res = s.run()
-        out['par_s'] = round(time.time() - t0, 2)
-        out['par_total'] = len(res)
-        out['par_stats_results'] = s.stats['results']
-        out['par_files'] = sorted(os.path.basename(p) for p in res.files)
-        par = {p: canon(res, p) for p in paths}
-        t0 = time.time()
+        seq = []
         for i, p in enumerate(paths):
-            s1 = FileSearcher(max_parallel_tasks=recipe['m'])
+            try:
+                s1 = FileSearcher(max_parallel_tasks=recipe['m'], **kw)
+                for sd in make_defs():
+                    s1.add(sd, p)
+                r1 = s1.run()
+                seq.append((canon(r1, p), None))
+            except Exception as exc:  # noqa
+                seq.append(([], describe_exc(exc)))
+        out['seq_s'] = round(time.time() - t0, 2)
+        t0 = time.time()
+        par = None
+        try:
+            s = FileSearcher(max_parallel_tasks=recipe['m'], **kw)
             for sd in make_defs():
-                s1.add(sd, p)
-            r1 = s1.run()
-            sq = canon(r1, p)
-            pp = par[p]
+                for p in paths:
+                    s.add(sd, p)
+            res = s.run()
+            out['par_total'] = len(res)
+            out['par_stats_results'] = s.stats['results']
+            par = [canon(res, p) for p in paths]
+        except Exception as exc:  # noqa
+            out['par_error'] = describe_exc(exc)
+        out['par_s'] = round(time.time() - t0, 2)
+        for i, p in enumerate(paths):
+            sq, serr = seq[i]
+            pp = par[i] if par is not None else []
             ent = {'i': i, 'n_par': len(pp), 'n_seq': len(sq),
                    'h_par': digest(pp), 'h_seq': digest(sq),
+                   'seq_error': serr,
                    'sections': len({x[5] for x in sq if x[5] >= 0}),
                    'falsy_values': sum(1 for x in sq for v in x[3]
                                        if v == 0 or v == ''),
+                   'distinct_values': len({json.dumps(v) for x in sq
+                                           for v in x[3]}),
+                   'replaced_bytes': sum(
+                       1 for x in sq for v in x[3] if isinstance(v, str)
+                       and ('\ufffd' in v or '\\xe9' in v
+                            or v.startswith('caf'))),
                    'read_errors_par': sum(
                        1 for x in pp for v in x[2] + x[3] + x[4]
                        if isinstance(v, dict)),
                    'read_errors_seq': sum(
                        1 for x in sq for v in x[2] + x[3] + x[4]
-                       if isinstance(v, dict)),
-                   'seq_only_files': [os.path.basename(x)
-                                      for x in r1.files]}
-            if pp != sq:
+                       if isinstance(v, dict))}
+            if par is not None and pp != sq:
                 k = 0
                 while k < min(len(pp), len(sq)) and pp[k] == sq[k]:
                     k += 1
@@ -207,11 +245,8 @@ def child_main(recipe_path, out_path):
                     'index': k,
                     'parallel': pp[k:k + 3], 'sequential': sq[k:k + 3]}
             out['paths'].append(ent)
-        out['seq_s'] = round(time.time() - t0, 2)
     except BaseException as exc:  # noqa
-        import traceback
-        out['error'] = f"{type(exc).__name__}: {exc}\n" + \
-            traceback.format_exc()[-1500:]
+        out['error'] = describe_exc(exc)
     finally:
         shutil.rmtree(d, ignore_errors=True)
     with open(out_path + '.tmp', 'w', encoding='utf-8') as f:
@@ -302,6 +337,23 @@ def recipes(chk):
             out.append({'m': rng.choice([2, 8, 16]),
                         'files': files(rnd(rng.randrange(2, 10),
                                            [1000, 10001, 9, 'E', 10]))})
+    # > 1100 distinct captured values per file (numbered tokens): block and
+    # batch boundaries inside the results store / sync() are crossed
+    out.insert(1, {'m': 3, 'files': [
+        dict(f, distinct=True) for f in files([1600, 1500, 1400, 9], 0)]})
+    if not chk.quick:
+        out.insert(2, {'m': 8, 'files': [
+            dict(f, distinct=True) for f in files([2507, 1001, 1000, 999,
+                                                   501, 500, 3011], 0.3)]})
+    # every third case (offset 1): lenient decode policy + invalid UTF-8
+    pols = ['replace', 'ignore', 'backslashreplace']
+    for k, rec in enumerate(out):
+        if k % 3 == 1:
+            rec['decode'] = pols[(k // 3) % 3]
+            elig = [f for f in rec['files']
+                    if f['vol'] != 'E' and f['vol'] >= 1]
+            for n_, f in enumerate(elig):
+                f['badutf8'] = (n_ == 0 or rng.random() < 0.5)
     # every second case: files whose captured values include falsy ones
     # (int 0 from an int-typed field, '' from an empty group)
     for k, rec in enumerate(out):
@@ -334,7 +386,8 @@ def observable(chk):
         r = c['recipe']
         vols = [f['vol'] for f in r['files']]
         shape = (f"files={len(vols)} m={r['m']} "
-                 f"max_vol={max([v for v in vols if v != 'E'] or [0])}")
+                 f"max_vol={max([v for v in vols if v != 'E'] or [0])}"
+                 + (f" decode={r['decode']}" if r.get('decode') else ''))
         chk.coverage['evaluations'] += 1
         chk.coverage['traces_validated_against_impl'] += 1
         chk.dist(f"obs_m={r['m']}")
@@ -352,6 +405,45 @@ def observable(chk):
             continue
         total = sum(e['n_seq'] for e in res['paths'])
         chk.dist('obs_results_compared', total)
+        if r.get('decode'):
+            chk.dist('obs_runs_with_lenient_decode')
+            chk.dist('obs_results_from_invalid_utf8_lines',
+                     sum(e.get('replaced_bytes', 0) for e in res['paths']))
+        mx = max([e.get('distinct_values', 0) for e in res['paths']] or [0])
+        if mx > 1100 and sum(1 for e in res['paths']
+                             if e.get('distinct_values', 0) > 1100) >= 2:
+            chk.dist('obs_runs_with_over_1100_distinct_values_per_file')
+        seq_errs = [e for e in res['paths'] if e.get('seq_error')]
+        if res.get('par_error'):
+            pe = res['par_error']
+            same = [e for e in seq_errs
+                    if e['seq_error']['class'] == pe['class']]
+            if same:
+                chk.dist('obs_runs_where_both_sides_raise')
+            else:
+                chk.violation(
+                    f"parallel-only-exception {pe['class']} {shape}",
+                    {'recipe': r, 'parallel_exception': pe,
+                     'sequential_exceptions': [e['seq_error']['class']
+                                               for e in seq_errs],
+                     'sequential_results_per_path': [e['n_seq'] for e in
+                                                     res['paths']],
+                     'note': 'run() over all files raised, while every '
+                             'file searched alone returned its results',
+                     'how_to_reproduce': 'write_files(recipe) + make_defs()'
+                                         ' in harness/c02.py; FileSearcher('
+                                         'max_parallel_tasks=m, '
+                                         'decode_errors=recipe.decode)'},
+                    witness=True)
+            continue
+        if seq_errs:
+            chk.violation(
+                f"sequential-only-exception "
+                f"{seq_errs[0]['seq_error']['class']} {shape}",
+                {'recipe': r, 'path_index': seq_errs[0]['i'],
+                 'sequential_exception': seq_errs[0]['seq_error']},
+                witness=False)
+            continue
         if any(e['n_seq'] > 10000 for e in res['paths']):
             chk.dist('obs_file_crossing_NUM_BUFFERED_RESULTS')
         if any(e['sections'] for e in res['paths']):
@@ -1210,6 +1302,12 @@ def replay(chk, path):
             print("replay: no result", timed_out, (res or {}).get('error'))
             print(f"VIOLATION property=C02 replay={path} "
                   "no-failing-input-found")
+            return 1
+        if res.get('par_error') and not any(
+                e.get('seq_error') for e in res['paths']):
+            print("replay: parallel run raised",
+                  res['par_error']['class'], res['par_error']['text'])
+            print(f"VIOLATION property=C02 replay={path}")
             return 1
         bad = [e for e in res['paths'] if e['h_par'] != e['h_seq']]
         for e in bad[:3]:
